@@ -86,6 +86,8 @@ where
 ///
 /// [\[9\] EntityValue](https://www.w3.org/TR/2008/REC-xml-20081126/#NT-EntityValue)
 fn entity_value(input: &str) -> IResult<&str, Vec<model::EntityValue>> {
+    #[cfg(xml_rs_verif)]
+    xml_nom::verif::tick();
     alt((
         delimited(
             tag("\""),
@@ -337,6 +339,8 @@ fn int_subset(input: &str) -> IResult<&str, Vec<model::InternalSubset<'_>>> {
 ///
 /// [\[29\] markupdecl](https://www.w3.org/TR/2008/REC-xml-20081126/#NT-markupdecl)
 fn markup_decl(input: &str) -> IResult<&str, model::DeclarationMarkup<'_>> {
+    #[cfg(xml_rs_verif)]
+    xml_nom::verif::tick();
     alt((
         map(element_decl, model::DeclarationMarkup::element),
         map(attlist_decl, model::DeclarationMarkup::attributes),
@@ -369,6 +373,8 @@ fn sd_decl(input: &str) -> IResult<&str, bool> {
 ///
 /// [\[39\] element](https://www.w3.org/TR/2008/REC-xml-20081126/#NT-element)
 pub fn element(input: &str) -> IResult<&str, model::Element<'_>> {
+    #[cfg(xml_rs_verif)]
+    xml_nom::verif::tick();
     alt((
         empty_entity_tag,
         map(tuple((stag, content, etag)), |(s, c, _)| s.set_content(c)),
@@ -397,6 +403,8 @@ fn stag(input: &str) -> IResult<&str, model::Element<'_>> {
 ///
 /// [\[15\] Attribute](https://www.w3.org/TR/2009/REC-xml-names-20091208/#NT-Attribute)
 pub fn attribute(input: &str) -> IResult<&str, model::Attribute<'_>> {
+    #[cfg(xml_rs_verif)]
+    xml_nom::verif::tick();
     map(
         tuple((
             alt((ns_att_name, map(qname, model::AttributeName::from))),
@@ -422,6 +430,8 @@ fn etag(input: &str) -> IResult<&str, ()> {
 ///
 /// [\[43\] content](https://www.w3.org/TR/2008/REC-xml-20081126/#NT-content)
 pub fn content(input: &str) -> IResult<&str, model::Content<'_>> {
+    #[cfg(xml_rs_verif)]
+    xml_nom::verif::tick();
     map(
         tuple((
             opt(char_data),
@@ -493,6 +503,8 @@ fn content_spec(input: &str) -> IResult<&str, model::DeclarationContent<'_>> {
 ///
 /// [\[47\] children](https://www.w3.org/TR/2008/REC-xml-20081126/#NT-children)
 fn children(input: &str) -> IResult<&str, model::DeclarationContentItem<'_>> {
+    #[cfg(xml_rs_verif)]
+    xml_nom::verif::tick();
     alt((
         map(
             tuple((seq, opt(alt((tag("?"), tag("*"), tag("+")))))),
@@ -511,6 +523,8 @@ fn children(input: &str) -> IResult<&str, model::DeclarationContentItem<'_>> {
 ///
 /// [\[18\] cp](https://www.w3.org/TR/2009/REC-xml-names-20091208/#NT-cp)
 fn cp(input: &str) -> IResult<&str, model::DeclarationContentItem<'_>> {
+    #[cfg(xml_rs_verif)]
+    xml_nom::verif::tick();
     alt((
         map(
             tuple((seq, opt(alt((tag("?"), tag("*"), tag("+")))))),
@@ -531,6 +545,8 @@ fn cp(input: &str) -> IResult<&str, model::DeclarationContentItem<'_>> {
 ///
 /// [\[49\] choice](https://www.w3.org/TR/2008/REC-xml-20081126/#NT-choice)
 fn choice(input: &str) -> IResult<&str, Vec<model::DeclarationContentItem<'_>>> {
+    #[cfg(xml_rs_verif)]
+    xml_nom::verif::tick();
     map(
         delimited(
             tuple((tag("("), multispace0)),
@@ -551,6 +567,8 @@ fn choice(input: &str) -> IResult<&str, Vec<model::DeclarationContentItem<'_>>> 
 ///
 /// [\[50\] seq](https://www.w3.org/TR/2008/REC-xml-20081126/#NT-seq)
 fn seq(input: &str) -> IResult<&str, Vec<model::DeclarationContentItem<'_>>> {
+    #[cfg(xml_rs_verif)]
+    xml_nom::verif::tick();
     map(
         delimited(
             tuple((tag("("), multispace0)),
@@ -731,6 +749,8 @@ fn char_ref(input: &str) -> IResult<&str, model::Reference<'_>> {
 ///
 /// [\[67\] Reference](https://www.w3.org/TR/2008/REC-xml-20081126/#NT-Reference)
 pub fn reference(input: &str) -> IResult<&str, model::Reference<'_>> {
+    #[cfg(xml_rs_verif)]
+    xml_nom::verif::tick();
     alt((entity_ref, char_ref))(input)
 }
 
